@@ -69,6 +69,13 @@ def scenarios(tier, rng):
                                  [{"ops": [{"op": "new"}, {"op": "solve", "k": 3}, {"op": "solve", "k": 2}, {"op": "wait"},
                                            {"op": "list", "dir": "@A"}]},
                                   {"ops": [{"op": "list", "dir": "@A"}, restore_op(full), {"op": "list", "dir": "@A"}]}]))
+    # two restores from the same directory in ONE process, with new checkpoints completed in between
+    for kind, pname, keep, isasync in (("VI", "forest", 3, False), ("VI", "tabular", 2, True), ("PVI", "forest12", 1, False)):
+        pspec, full = P[pname]
+        out.append(base_scenario(f"{kind}-{pname}-two-restores-one-process-m{keep}", kind, pname, pspec, full, 2, keep, isasync,
+                                 [{"ops": [{"op": "new"}, {"op": "solve", "k": 4}, {"op": "wait"}, {"op": "list", "dir": "@A"},
+                                           restore_op(full), {"op": "solve", "k": 4}, {"op": "wait"}, {"op": "list", "dir": "@A"},
+                                           restore_op(full), {"op": "solve", "k": 1}, {"op": "wait"}, {"op": "list", "dir": "@A"}]}]))
     # error paths
     pspec, full = P["tabular"]
     out.append(base_scenario("VI-tabular-restore-without-config", "VI", "tabular", pspec, False, 1, 2, False,
